@@ -94,7 +94,10 @@ class D(Driver):
         if st == "exc":
             bump(res["counters"], "exception." + type(out).__name__)
             msg = str(out)
-            if du and ("BadElement" in msg or "MissingElement" in msg):
+            gate = [e for e in msg.split("Unable to convert to picosvg: ")[-1].split(",") if e.startswith(("BadElement", "MissingElement"))]
+            # duplicate-id reports come through the same gate but have nothing to do with unsupported elements
+            gate = [e for e in gate if "reuses id=" not in e]
+            if du and gate:
                 res["viol"].append(dict(rule="drop_unsupported_gate", sig="drop_unsupported_gate",
                                         msg=f"with drop_unsupported=True the final gate still failed: {msg[:300]}\nSOURCE: {doc[:2000]}",
                                         replay={"kind": "doc", "doc": doc, "ndigits": nd, "allow_text": at, "drop_unsupported": du}))
